@@ -199,8 +199,10 @@ def find_items(src, toks, keyword, name, lo=0, hi=None, depth_base=0):
 
 
 def find_impl(src, toks, header):
-    """Locate `impl ... {` whose header text (whitespace-normalised) equals `header`."""
+    """Locate `impl ... {` (or `trait ... {`) whose header text (whitespace-normalised) equals `header`;
+    a header ending in `...` matches by prefix (used for trait headers with long bound lists)."""
     want = " ".join(header.split())
+    kw = "trait" if want.startswith("trait ") else "impl"
     depth = 0
     res = []
     for i, t in enumerate(toks):
@@ -208,12 +210,12 @@ def find_impl(src, toks, header):
             depth += 1
         elif t[1] == "}":
             depth -= 1
-        elif depth == 0 and t[1] == "impl" and t[0] == "id":
+        elif depth == 0 and t[1] == kw and t[0] == "id":
             j = i
             while toks[j][1] != "{":
                 j += 1
             got = " ".join(src[toks[i][2]:toks[j][2]].split())
-            if got == want:
+            if got == want or (want.endswith("...") and got.startswith(want[:-3].rstrip())):
                 res.append((i, j, _match_brace(toks, j)))
     return res
 
@@ -247,14 +249,14 @@ class Extractor:
             raise Undecided(f"anchor-lost: {file}: `{keyword} {name}` found {len(r)} times at top level")
         return self.text_of(file, r[0])
 
-    def method(self, file, header, name, occ=1):
+    def method(self, file, header, name, occ=1, keyword="fn"):
         src, toks = self.load(file)
         impls = find_impl(src, toks, header)
         if len(impls) < 1:
             raise Undecided(f"anchor-lost: {file}: `{header}` not found")
         found = []
         for (i, j, e) in impls:
-            found += find_items(src, toks, "fn", name, lo=j + 1, hi=e, depth_base=0)
+            found += find_items(src, toks, keyword, name, lo=j + 1, hi=e, depth_base=0)
         if len(found) != 1:
             raise Undecided(f"anchor-lost: {file}: `{header}`::{name} found {len(found)} times")
         return self.text_of(file, found[0])
@@ -440,15 +442,23 @@ def build_file(U, root=REPO):
         elif k == "impl":
             hdr = it.get("out_header", it["header"])
             parts.append(hdr + " {\n" + it.get("extra", ""))
+            for c in it.get("consts", []):
+                ct = strip_comments(ex.method(it["file"], it["header"], c["name"], keyword="const"))
+                parts.append(c.get("attrs", "") + ct + "\n")
+                report.append({"kind": "extract", "file": it["file"], "item": f"{it['header']}::const {c['name']}",
+                               "note": c.get("note", "")})
             for mth in it["methods"]:
-                orig = ex.method(it["file"], it["header"], mth["name"])
+                # a method may come from another container (a trait's default method instantiated at this impl)
+                src_file, src_hdr = mth.get("src_file", it["file"]), mth.get("src_header", it["header"])
+                orig = ex.method(src_file, src_hdr, mth["name"])
                 label = mth.get("fnlabel", f"{it['header']}::{mth['name']}")
                 sp = emit_fn(orig, mth, label)
                 if mth.get("pub") and not sp.lstrip().startswith("pub"):
                     sp = "pub " + sp
                 regions.append((len(parts), label, mth.get("ob")))
                 parts.append(mth.get("attrs", "") + sp + "\n")
-                report.append({"kind": "extract", "file": it["file"], "item": f"{it['header']}::{mth['name']}",
+                report.append({"kind": "extract", "file": src_file, "item": f"{src_hdr}::{mth['name']}" + (
+                                   f" (default method, placed in `{it['header']}`)" if "src_header" in mth else ""),
                                "inserted": {"spec": bool(mth.get("spec")), "ghost_blocks": len(mth.get("ghost", []))}})
             parts.append("}\n")
         else:
